@@ -12,10 +12,44 @@ def sh(cmd, **kw):
     return p.returncode, p.stdout.decode("utf8", "replace")
 
 
+def in_worktree(name, d, meta, wt):
+    sys.path.insert(0, os.path.join(VERIF, "harness"))
+    import props
+    result = {"ran_at": time.strftime("%Y-%m-%dT%H:%M:%SZ", time.gmtime()), "checks": {}, "where": "scratch worktree (JPV_REPO)"}
+    sh(f"git -C {wt} checkout -- . && git -C {wt} clean -fdq -- jsonpath_rfc9535")
+    if sh(f"git -C {wt} rev-parse HEAD")[1].strip() != sh("git -C /repo rev-parse HEAD")[1].strip():
+        print("refusing: worktree is not at /repo's HEAD"); return 2
+    try:
+        rc, out = sh(f"git -C {wt} apply {d}/patch.diff")
+        if rc != 0:
+            print("patch does not apply:", out); return 2
+        rc, out = sh(f"cd {wt} && PYTHONPATH={wt} /venv/bin/python -m pytest -q -p no:cacheprovider --timeout=900 --continue-on-collection-errors 2>&1 | tail -1")
+        result["tests_with_change"] = out.strip()
+        for c in sorted(props.PROPS):
+            t = time.time()
+            rc, out = sh(f"cd {VERIF} && JPV_REPO={wt} VERIF_SEED=2 /venv/bin/python harness/run_check.py {c} --tier quick 2>&1", timeout=3600)
+            lines = [l for l in out.splitlines() if l.startswith(("VIOLATION", "OK ", "INFRA", "  broken", "  mismatch", "  {"))]
+            result["checks"][c] = {"exit": rc, "wall_s": round(time.time() - t, 1), "lines": [l[:500] for l in lines[:4]]}
+    finally:
+        sh(f"git -C {wt} checkout -- . && git -C {wt} clean -fdq -- jsonpath_rfc9535")
+        sh(f"cd {VERIF} && git checkout -- evidence && git clean -fdq -- replays evidence")
+        sh(f"cd {VERIF} && /venv/bin/python harness/gen_tables.py > /dev/null")
+    meta["evaluation"] = result
+    json.dump(meta, open(os.path.join(d, "meta.json"), "w"), indent=1)
+    alarms = {c: v for c, v in result["checks"].items() if v["exit"] != 0}
+    print(name, result["tests_with_change"], "alarms:", list(alarms))
+    for c, v in alarms.items():
+        for l in v["lines"][:3]:
+            print("   ", c, l[:400])
+    return 0
+
+
 def main():
     name = sys.argv[1]
     d = os.path.join(VERIF, "refactors", name)
     meta = json.load(open(os.path.join(d, "meta.json")))
+    if "--wt" in sys.argv:
+        return in_worktree(name, d, meta, sys.argv[sys.argv.index("--wt") + 1])
     rc, out = sh("git -C /repo status --porcelain")
     if out.strip():
         print("refusing: /repo is not clean"); return 2
